@@ -63,11 +63,11 @@ var c04Pool = []kval{
 	{"k_tm", func() interface{} { return fixedTime }},
 	{"k_err", func() interface{} { return ErrSentinel }},
 	{"k_pi", func() interface{} { i := 9; return &i }},
-	{"k_sid", func() interface{} { return struct{ ID []int }{[]int{1}} }},
-	{"k_sslug", func() interface{} { return &struct{ Slug map[string]int }{map[string]int{"a": 1}} }},
-	{"k_sidn", func() interface{} { return struct{ ID interface{} }{nil} }},
-	{"k_sidf", func() interface{} { return struct{ ID func() }{func() {}} }},
-	{"k_slst", func() interface{} { return []interface{}{struct{ ID []int }{nil}, "x", nil} }},
+	{"k_sid", func() interface{} { return WithSliceID{[]int{1}} }},
+	{"k_sslug", func() interface{} { return &WithMapSlug{map[string]int{"a": 1}} }},
+	{"k_sidn", func() interface{} { return WithAnyID{nil} }},
+	{"k_sidf", func() interface{} { return WithAnyID{func() {}} }},
+	{"k_slst", func() interface{} { return []interface{}{WithSliceID{nil}, "x", nil} }},
 }
 
 // expression-produced kinds (cannot be injected as data)
